@@ -11,10 +11,12 @@ Driver of C10. Payloads (space separated):
 * `B <op> …` with `N<p>` NewChildMonitor(p), `A<k>` Activate, `S<k>` Skip, `F<k>` Finish of the
   monitor number `k` (0 = the root monitor). Result: `HighestPriority()` after every op, `P` for an
   assertion panic (the sequence ends there).
-* `K <workers> <root>|<root>…`, root = `<parent>:<prio>:<trig>:<fail>,…` (node id = position;
-  parent `r` = added from outside before the worker runs; prio `R` = added with the root monitor
-  itself). One worker: per root `id@hp.id@hp… err=<ids>`; several workers: per root
-  `set=<sorted ids> err=<sorted ids>` (the dequeue order is checked on the recorded trace).
+* `K <workers> <flag> <root>|<root>…`, root = `<parent>:<prio>:<rules>,…` (event id = position;
+  parent `r` = added from outside before the worker runs, `e.k` = added by rule `k` of event `e`;
+  prio `R` = added with the root monitor itself; rules `p/f;p/f…` = priority/fails in declaration
+  order, `-` = no rule triggers). One worker: per root `e/k@hp.… err=<e/k…> end=<hp>` (action
+  starts in order); several workers: per root `set=<sorted e/k> err=… end=…` (the dequeue order
+  is checked on the recorded trace).
 * with argument `trace`: a TaskQueue trace `+<root>:<prio>:<mon>` / `-<root>:<mon>` … → `ok` / `bad <k>`.
 -/
 namespace Ecal.Drv.C10
@@ -80,32 +82,48 @@ def runBook (ops : List String) : String :=
       (ops.filter (fun | .activate _ => true | .skip _ => true | _ => false)).length ≥ 2
     joinOr "," out ++ (if nt then "\tnt=1" else "")
 
+def parseRules (s : String) : Option (List (Int × Bool)) :=
+  if s == "-" then some [] else
+  (s.splitOn ";").mapM fun r =>
+    match r.splitOn "/" with
+    | [p, f] => p.toInt?.map fun p => (p, f == "1")
+    | _ => none
+
 def parseNode (s : String) : Option Cascade.Node :=
   match s.splitOn ":" with
-  | [par, p, t, f] => do
-    let parent ← if par == "r" then some none else par.toNat?.map some
+  | [par, p, rs] => do
+    let parent ← if par == "r" then some none else
+      match par.splitOn "." with
+      | [e, k] => do some (some ((← e.toNat?), (← k.toNat?)))
+      | _ => none
     let prio ← if p == "R" then some none else p.toInt?.map some
-    some { parent := parent, prio := prio, trig := t == "1", fails := f == "1" }
+    let rules ← parseRules rs
+    some { parent := parent, prio := prio, rules := rules }
   | _ => none
 
-def runRoot (one : Bool) (s : String) : String :=
+def sortPairs (l : List (Nat × Nat)) : List (Nat × Nat) :=
+  l.mergeSort (fun a b => decide (a.1 < b.1 ∨ (a.1 = b.1 ∧ a.2 ≤ b.2)))
+
+def showPair (p : Nat × Nat) : String := s!"{p.1}/{p.2}"
+
+def runRoot (one : Bool) (flag : Bool) (s : String) : String :=
   match (s.splitOn ",").mapM parseNode with
   | none => "bad-payload"
   | some nodes =>
-    let st := Cascade.runScript Book.current nodes
+    let st := Cascade.runScript Book.current stableSort flag nodes
     if st.bad then "MODEL-ASSERT" else
     let started := st.started.reverse
-    let errs := joinOr "." ((sortNats st.errs).map toString)
+    let errs := joinOr "." ((sortPairs st.errs).map showPair)
     let fin := s!" end={Book.highestPriority st.rm}"
     if one then
-      joinOr "." (started.map fun (i, hp) => s!"{i}@{hp}") ++ " err=" ++ errs ++ fin
+      joinOr "." (started.map fun (p, hp) => s!"{showPair p}@{hp}") ++ " err=" ++ errs ++ fin
     else
-      "set=" ++ joinOr "." ((sortNats (started.map (·.1))).map toString) ++ " err=" ++ errs ++ fin
+      "set=" ++ joinOr "." ((sortPairs (started.map (·.1))).map showPair) ++ " err=" ++ errs ++ fin
 
-def runCascade (workers : String) (roots : String) : String :=
+def runCascade (workers flag : String) (roots : String) : String :=
   let rs := roots.splitOn "|"
   let nodes : Nat := (rs.map fun r => (r.splitOn ",").length).foldl (· + ·) 0
-  "|".intercalate (rs.map (runRoot (workers == "1"))) ++ " hp=ok" ++ (if nodes ≥ 3 then "\tnt=1" else "")
+  "|".intercalate (rs.map (runRoot (workers == "1") (flag == "1"))) ++ " hp=ok" ++ (if nodes ≥ 3 then "\tnt=1" else "")
 
 /-- `Q`: sortutil.PriorityQueue driven directly; the model is the real representation `HPQ`.
     ops: `+<prio>` Push (value = number of the push), `-` Pop, `k` Peek, `c` Clear.
@@ -142,7 +160,7 @@ def runCase (payload : String) : String :=
   | "S" :: rules => runRules "1" rules
   | "B" :: ops => runBook ops
   | "Q" :: ops => runQ ops
-  | ["K", workers, roots] => runCascade workers roots
+  | ["K", workers, flag, roots] => runCascade workers flag roots
   | _ => "bad-payload"
 
 def parseQEv (s : String) : Option QEv :=
